@@ -497,6 +497,29 @@ def restore_oracle(case, stats=None):
             rep = sol.get(name)
             if not judge.isnum(rep) or not judge.close(rep, val, s_):
                 msgs.append("field %r = %r but the returned vectors give %r" % (name, rep, val))
+        # 'primal infeasibility' / 'dual infeasibility': the residual norms of the returned point divided by
+        # max(1, their values at the starting point (x0, s = z = e)), as documented for cpl
+        from cvxopt import exp as _cexp          # noqa
+        e_c = np.concatenate([np.ones(dims["l"])] + [np.concatenate([[1.0], np.zeros(m_ - 1)]) for m_ in dims["q"]] +
+                             [np.eye(m_).reshape(-1) for m_ in dims["s"]]) if rc.cdim(dims) else np.zeros(0)
+        K_, Aa_ = pr["K"], pr["Aa"]
+
+        def fDf(xx):
+            ex = np.exp(K_ * (Aa_ @ xx))
+            return np.array([float(np.sum(ex)) - pr["rhs"]]), (K_ * (Aa_.T @ ex)).reshape((1, -1))
+        xstart = np.array(list(F()[1]), dtype=float)
+        f0_, Df0_ = fDf(xstart)
+        pres0 = max(1.0, float(np.sqrt(judge.nrm(f0_ + 1.0) ** 2 + rc.snrm2(Gs @ xstart + e_c - hs, dims) ** 2)))
+        dres0 = max(1.0, judge.nrm(pr["c"] + Df0_.T @ np.ones(1) + Gs.T @ e_c))
+        fx_, Dfx_ = fDf(x)
+        pres_r = float(np.sqrt(judge.nrm(fx_ + snl) ** 2 + rc.snrm2(Gs @ x + rc.symvec(sl, dims) - hs, dims) ** 2)) / pres0
+        dres_r = judge.nrm(pr["c"] + Dfx_.T @ znl + Gs.T @ rc.symvec(zl, dims)) / dres0
+        psc = (fmag + judge.nrm(snl) + judge.nrm(Gs @ x) + judge.nrm(hs) + judge.nrm(sl)) / pres0
+        dsc = (judge.nrm(pr["c"]) + float(np.linalg.norm(Dfx_)) * judge.nrm(znl) + float(np.linalg.norm(Gs)) * judge.nrm(zl)) / dres0
+        for name, val, s_ in (("primal infeasibility", pres_r, psc), ("dual infeasibility", dres_r, dsc)):
+            rep = sol.get(name)
+            if not judge.isnum(rep) or abs(rep - val) > 1e-6 * (abs(val) + 1e-9) + 1e-9 * s_:
+                msgs.append("field %r = %r but the returned vectors give %r (normalisers %.3g, %.3g)" % (name, rep, val, pres0, dres0))
         if msgs:
             raise Violation("%s -> 'unknown' but %s" % (where, "; ".join(msgs[:3])))
     if stats is not None:
